@@ -308,12 +308,35 @@ def inv_sign_rule(ctx):
                         res_flag.fail(Finding("INV-FLAG", (fi if want else ff).module, (fi if want else ff).qualname, pp.ret_node, "%s must call self.%s with inverse=%s (found %s): both directions would compute the same map" % ("inverse" if want else "forward", r.func.attr, want, val)))
         if deleg:
             continue
-        fmap = {}
-        for pp in fr:
-            fmap.setdefault(_cond_key(pp), []).append(pp)
-        imap = {}
-        for pp in ir:
-            imap.setdefault(_cond_key(pp), []).append(pp)
+        # case distinctions are compared over the tests both directions make; a test only one
+        # direction makes (lazy initialisation, a direction-specific guard) splits that
+        # direction's paths without a counterpart -- harmless when those paths carry the same
+        # log-det expression, undecided otherwise
+        vf = {t for pp in fr for t, _ in _cond_key(pp)}
+        vi = {t for pp in ir for t, _ in _cond_key(pp)}
+        shared = vf & vi
+
+        def grouped(paths):
+            m = {}
+            for pp in paths:
+                k = frozenset((t, pol) for t, pol in _cond_key(pp) if t in shared)
+                m.setdefault(k, []).append(pp)
+            return m
+
+        fmap, imap = grouped(fr), grouped(ir)
+        ambiguous = False
+        for m in (fmap, imap):
+            for k, pps in m.items():
+                # only paths that were told apart by a one-sided test are in question
+                full = {}
+                for pp in pps:
+                    full.setdefault(_cond_key(pp), pp)
+                lds = {shash(_ld_of_path(pp)) if _ld_of_path(pp) is not None else None for pp in full.values()}
+                if len(full) > 1 and len(lds) > 1:
+                    ambiguous = True
+        if ambiguous:
+            res.undecide(label, "a test made by one direction only changes that direction's log-det")
+            continue
         common = set(fmap) & set(imap)
         if not common:
             if len(fmap) == 1 and len(imap) == 1:
@@ -637,20 +660,38 @@ def _padd(a, b):
     return {k: v for k, v in out.items() if v}
 
 
+def _is_channels(e, x="inputs"):
+    """the channel count of the 4-D argument: c of `b, c, h, w = inputs.size()` (expanded to a
+    component), inputs.shape[1], inputs.size(1)"""
+    t = norm_text(e).replace(" ", "")
+    return t in ("__component__(%s.size(),1)" % x, "__component__(%s.shape,1)" % x, "%s.shape[1]" % x, "%s.size(1)" % x, "%s.size()[1]" % x, "c")
+
+
 def inv_config_rule(ctx):
     p = ctx.p
     res = RuleResult("INV-CONFIG", "a shape guard in one direction is expressed in the configuration the other direction used (squeeze: channels divisible by factor**2)")
     sq = p.find_class("SqueezeTransform", "nflows.transforms.reshape")
     fwd, inv = sq.methods.get("forward"), sq.methods.get("inverse")
-    # forward's channel multiplier: the view that multiplies c
+    if fwd is None or inv is None:
+        raise AnalysisIncomplete("SqueezeTransform.forward / inverse missing")
+    # forward's channel multiplier: the 4-argument view whose channel slot multiplies c.
+    # Everything is read off the path-wise expansion, so locals (factor = self.factor) and
+    # renamed intermediates do not matter.
     mult = None
-    for n in ast.walk(fwd.node):
-        if isinstance(n, ast.Call) and _last(n) in ("view", "reshape") and len(n.args) == 4:
-            a = n.args[1]
-            if isinstance(a, ast.BinOp):
-                # c * f * f
-                ps, fac = product_factors(a)
-                rest = [f for f in fac if norm_text(f) != "c"]
+    for path in paths_of(fwd.node):
+        if path.kind != "return":
+            continue
+        for n in uwalk(path.ret):
+            if isinstance(n, ast.Call) and _last(n) in ("view", "reshape"):
+                args = n.args[1:] if isinstance(n.func, ast.Attribute) and isinstance(n.func.value, ast.Name) and n.func.value.id == "torch" else n.args
+                if len(args) == 1 and isinstance(args[0], (ast.Tuple, ast.List)):
+                    args = args[0].elts
+                if len(args) != 4:
+                    continue
+                ps, fac = product_factors(args[1])
+                rest = [f for f in fac if not _is_channels(f)]
+                if len(rest) == len(fac):
+                    continue
                 poly = {0: 1.0}
                 okp = True
                 for f in rest:
@@ -659,41 +700,56 @@ def inv_config_rule(ctx):
                         okp = False
                         break
                     poly = _pmul(poly, q)
-                if okp and len(rest) < len(fac):
+                if okp:
                     mult = poly
     if mult is None:
         res.undecide("SqueezeTransform.forward", "channel multiplier not found")
         return res
     res.ok("forward multiplies the channels by the polynomial %s in self.factor" % mult)
-    guards = [n for n in inv.node.body if isinstance(n, ast.If) and any(isinstance(b, ast.Raise) for b in n.body)]
     checked = 0
-    for g in guards:
-        for c in ast.walk(g.test):
-            if isinstance(c, ast.Compare) and len(c.ops) == 1:
-                l, r = c.left, c.comparators[0]
-                cand = None
-                if isinstance(l, ast.BinOp) and isinstance(l.op, ast.Mod) and norm_text(l.left) == "c":
-                    cand = l.right
-                elif norm_text(l) == "c" and isinstance(c.ops[0], (ast.Lt, ast.LtE)):
-                    cand = r
-                if cand is None:
-                    continue
-                checked += 1
-                q = _poly_in(cand, "self.factor")
-                if q == mult:
-                    res.ok("inverse guard `%s` uses factor**2" % norm_text(c))
-                else:
-                    res.fail(Finding("INV-CONFIG", inv.module, inv.qualname, g, "the inverse's channel guard `%s` tests %s where forward produced c * factor**2 channels: for factor != 2 the inverse rejects (or mis-accepts) forward's own outputs" % (norm_text(c), norm_text(cand))))
+    seen = set()
+    ipaths = paths_of(inv.node)
+    for path in ipaths:
+        if path.kind != "raise":
+            continue
+        for et, raw, pol in path.conds:
+            if id(raw) in seen:
+                continue
+            seen.add(id(raw))
+            for c in uwalk(et):
+                if isinstance(c, ast.Compare) and len(c.ops) == 1:
+                    l, r = c.left, c.comparators[0]
+                    cand = None
+                    if isinstance(l, ast.BinOp) and isinstance(l.op, ast.Mod) and _is_channels(l.left):
+                        cand = l.right
+                    elif _is_channels(l) and isinstance(c.ops[0], (ast.Lt, ast.LtE)):
+                        cand = r
+                    if cand is None:
+                        continue
+                    checked += 1
+                    q = _poly_in(cand, "self.factor")
+                    if q == mult:
+                        res.ok("inverse guard `%s` uses factor**2" % norm_text(c)[:80])
+                    else:
+                        res.fail(Finding("INV-CONFIG", inv.module, inv.qualname, raw, "the inverse's channel guard `%s` tests %s where forward produced c * factor**2 channels: for factor != 2 the inverse rejects (or mis-accepts) forward's own outputs" % (norm_text(raw), norm_text(cand))))
     if not checked:
         res.fail(Finding("INV-CONFIG", inv.module, inv.qualname, inv.node, "inverse has no divisibility guard on the channel count", construct="channel guard of inverse"))
     # the divisor used to split the channels must be the same polynomial
-    for n in ast.walk(inv.node):
-        if isinstance(n, ast.BinOp) and isinstance(n.op, ast.FloorDiv) and norm_text(n.left) == "c":
-            q = _poly_in(n.right, "self.factor")
-            if q == mult:
-                res.ok("inverse divides the channels by factor**2")
-            else:
-                res.fail(Finding("INV-CONFIG", inv.module, inv.qualname, stmt_of(n) or n, "inverse divides the channels by %s, forward multiplied by factor**2" % norm_text(n.right)))
+    seen_div = set()
+    for path in ipaths:
+        if path.kind != "return":
+            continue
+        for n in uwalk(path.ret):
+            if isinstance(n, ast.BinOp) and isinstance(n.op, ast.FloorDiv) and _is_channels(n.left):
+                key = norm_text(n.right)
+                if key in seen_div:
+                    continue
+                seen_div.add(key)
+                q = _poly_in(n.right, "self.factor")
+                if q == mult:
+                    res.ok("inverse divides the channels by factor**2")
+                else:
+                    res.fail(Finding("INV-CONFIG", inv.module, inv.qualname, path.ret_node, "inverse divides the channels by %s, forward multiplied by factor**2" % norm_text(n.right), construct="channel divisor of inverse"))
     return res
 
 
@@ -858,6 +914,175 @@ def lin_pos_rule(ctx):
     return res_pos
 
 
+def _flat_product(e, num, den):
+    """flatten products / quotients into numerator and denominator factor lists"""
+    if isinstance(e, ast.BinOp) and isinstance(e.op, ast.Mult):
+        _flat_product(e.left, num, den)
+        _flat_product(e.right, num, den)
+    elif isinstance(e, ast.BinOp) and isinstance(e.op, ast.Div):
+        _flat_product(e.left, num, den)
+        _flat_product(e.right, den, num)
+    else:
+        num.append(e)
+
+
+def _call_parts(c):
+    """(last name, [operands]) of a torch function / method call, receiver first for methods"""
+    f = c.func
+    if isinstance(f, ast.Attribute):
+        is_mod = isinstance(f.value, ast.Name) and f.value.id in ("torch", "F", "np")
+        return f.attr, (list(c.args) if is_mod else [f.value] + list(c.args))
+    if isinstance(f, ast.Name):
+        return f.id, list(c.args)
+    return "", []
+
+
+def _is_inner(e, x, q):
+    """e == <x rows, q>: x @ q, matmul / mv / mm(x, q), (x * q).sum(-1)"""
+    if isinstance(e, ast.BinOp) and isinstance(e.op, ast.MatMult):
+        return norm_text(e.left) == x and norm_text(e.right) == q
+    if isinstance(e, ast.Call):
+        last, ops = _call_parts(e)
+        if last in ("matmul", "mv", "mm") and len(ops) == 2:
+            return norm_text(ops[0]) == x and norm_text(ops[1]) == q
+        from ..astutil import as_reduction
+
+        red = as_reduction(e, ("sum",))
+        if red is not None and red[2] is not None and const_number(red[2]) in (-1, 1):
+            inner = red[1]
+            if isinstance(inner, ast.BinOp) and isinstance(inner.op, ast.Mult):
+                return {norm_text(inner.left), norm_text(inner.right)} == {x, q}
+    return False
+
+
+def _is_sqnorm(e, q, paired):
+    """e == |q|^2: the loop variable paired with the row-wise squared norms, or sum(q**2), q @ q,
+    dot(q, q), (q * q).sum(), q.norm() ** 2"""
+    from ..astutil import as_reduction
+
+    t = norm_text(e)
+    if paired is not None and t == paired:
+        return True
+    if isinstance(e, ast.BinOp) and isinstance(e.op, ast.MatMult):
+        return norm_text(e.left) == q and norm_text(e.right) == q
+    if isinstance(e, ast.BinOp) and isinstance(e.op, ast.Pow) and const_number(e.right) == 2 and isinstance(e.left, ast.Call):
+        last, ops = _call_parts(e.left)
+        return last == "norm" and len(ops) == 1 and norm_text(ops[0]) == q
+    if isinstance(e, ast.Call):
+        last, ops = _call_parts(e)
+        if last in ("dot", "inner", "vdot") and len(ops) == 2:
+            return norm_text(ops[0]) == q and norm_text(ops[1]) == q
+        red = as_reduction(e, ("sum",))
+        if red is not None:
+            return _is_square_of(red[1], q)
+    return False
+
+
+def _is_square_of(e, q):
+    if isinstance(e, ast.BinOp) and isinstance(e.op, ast.Pow) and const_number(e.right) == 2:
+        return norm_text(e.left) == q
+    if isinstance(e, ast.BinOp) and isinstance(e.op, ast.Mult):
+        return norm_text(e.left) == q and norm_text(e.right) == q
+    if isinstance(e, ast.Call):
+        last, ops = _call_parts(e)
+        if last == "square" and len(ops) == 1:
+            return norm_text(ops[0]) == q
+        if last == "pow" and len(ops) == 2 and const_number(ops[1]) == 2:
+            return norm_text(ops[0]) == q
+    return False
+
+
+def _reflection_verdict(e, x, q, paired):
+    """'ok' | ('bad', why) | None (unknown form) for  e == x - outer(<x, q>, (2 / |q|^2) q)."""
+    terms = signed_terms(e)
+    if len(terms) != 2:
+        return None
+    plus = [t for sg, t in terms if sg > 0]
+    minus = [t for sg, t in terms if sg < 0]
+    if len(plus) == 2 and not minus and x in [norm_text(t) for t in plus] and any(isinstance(c, ast.Call) and _call_parts(c)[0] in ("ger", "outer") for t in plus for c in uwalk(t)):
+        return ("bad", "the rank-one term is added to the running outputs; a reflection subtracts it")
+    if len(plus) != 1 or len(minus) != 1:
+        return None
+    if norm_text(plus[0]) != x:
+        return ("bad", "the reflection must be subtracted from the running outputs `%s`, not from `%s`" % (x, norm_text(plus[0])[:40]))
+    num, den = [], []
+    _flat_product(minus[0], num, den)
+    # exactly one outer product among the numerator factors
+    outers = [f for f in num if isinstance(f, ast.Call) and _call_parts(f)[0] in ("ger", "outer")]
+    if len(outers) != 1:
+        return None
+    last, ops = _call_parts(outers[0])
+    if len(ops) != 2:
+        return None
+    num = [f for f in num if f is not outers[0]]
+    _flat_product(ops[0], lnum := [], lden := [])
+    _flat_product(ops[1], rnum := [], rden := [])
+    vec_l = [f for f in lnum if const_number(f) is None and not _is_sqnorm(f, q, paired)]
+    vec_r = [f for f in rnum if const_number(f) is None and not _is_sqnorm(f, q, paired)]
+    scal_num = [f for f in num + lnum + rnum if f not in vec_l and f not in vec_r]
+    scal_den = den + lden + rden
+    if len(vec_l) != 1 or len(vec_r) != 1:
+        return None
+    if not _is_inner(vec_l[0], x, q):
+        if _is_inner(vec_l[0], x, norm_text(vec_l[0].right) if isinstance(vec_l[0], ast.BinOp) else "?") or isinstance(vec_l[0], (ast.BinOp, ast.Call)):
+            return ("bad", "the projection `%s` is not the inner product of the running outputs `%s` with `%s`" % (norm_text(vec_l[0])[:50], x, q))
+        return None
+    if norm_text(vec_r[0]) != q:
+        return ("bad", "the outer product uses `%s` where the same vector `%s` is required" % (norm_text(vec_r[0])[:40], q))
+    consts = [const_number(f) for f in scal_num]
+    if any(c is None for c in consts):
+        if all(c is not None or _is_sqnorm(f, q, paired) for c, f in zip(consts, scal_num)):
+            return ("bad", "the squared norm multiplies the reflection instead of dividing it")
+        return None
+    coef = 1.0
+    for c in consts:
+        coef *= c
+    dconst = 1.0
+    norms = 0
+    for f in scal_den:
+        c = const_number(f)
+        if c is not None:
+            dconst *= c
+        elif _is_sqnorm(f, q, paired):
+            norms += 1
+        else:
+            return ("bad", "the reflection is divided by `%s`, which is not the squared norm of `%s`" % (norm_text(f)[:40], q))
+    if norms != 1:
+        return ("bad", "the reflection must be divided by the squared norm of `%s` exactly once (found %d)" % (q, norms))
+    if abs(coef / dconst - 2.0) > 1e-12:
+        return ("bad", "the reflection coefficient is %g / |q|^2; a Householder reflection needs 2 / |q|^2" % (coef / dconst))
+    return "ok"
+
+
+def _row_order(e, what="self.q_vectors"):
+    """'stored' | 'reversed' | ('bad', why) | None for the rows handed to _apply_transforms"""
+    t = norm_text(e).replace(" ", "")
+    if t == what:
+        return "stored"
+    if isinstance(e, ast.Call):
+        last, ops = _call_parts(e)
+        if last == "flip" and ops and norm_text(ops[0]) == what:
+            dims = ops[1:] + [k.value for k in e.keywords if k.arg == "dims"]
+            if len(dims) == 1:
+                d = dims[0]
+                ds = [const_number(x) for x in d.elts] if isinstance(d, (ast.Tuple, ast.List)) else [const_number(d)]
+                if ds == [0]:
+                    return "reversed"
+                return ("bad", "flip over dims %s does not reverse the order of the reflections" % ds)
+    if isinstance(e, ast.Subscript) and norm_text(e.value) == what:
+        idx = e.slice
+        if isinstance(idx, ast.Call) and _call_parts(idx)[0] == "arange":
+            args = _call_parts(idx)[1]
+            ta = [norm_text(a).replace(" ", "") for a in args]
+            k = "self.num_transforms"
+            if ta in ([k + "-1", "-1", "-1"],):
+                return "reversed"
+            if ta in ([k], ["0", k], ["0", k, "1"]):
+                return "stored"
+            return ("bad", "rows torch.arange(%s) are neither all rows in stored order nor all rows reversed" % ", ".join(ta))
+    return None
+
+
 def orth_rule(ctx):
     p = ctx.p
     res = RuleResult("ORTH-REV", "HouseholderSequence.inverse applies the same reflections in exactly reversed order; each reflection subtracts outer(x.q, (2/|q|^2) q) with one and the same q")
@@ -867,52 +1092,79 @@ def orth_rule(ctx):
     for m, nm in ((ap, "_apply_transforms"), (fwd, "forward"), (inv, "inverse")):
         if m is None:
             raise AnalysisIncomplete("HouseholderSequence.%s missing" % nm)
-    # forward: rows in stored order
-    okf = False
-    for path in paths_of(fwd.node):
-        if path.kind == "return" and norm_text(path.ret) in ("self._apply_transforms(inputs, self.q_vectors)",):
-            okf = True
-    if okf:
-        res.ok("forward applies q_vectors in stored order")
-    else:
-        res.fail(Finding("ORTH-REV", fwd.module, fwd.qualname, fwd.node, "forward must apply self.q_vectors in stored order", construct="forward order"))
-    oki = False
-    for path in paths_of(inv.node):
-        if path.kind != "return":
-            continue
-        t = norm_text(path.ret).replace(" ", "")
-        forms = (
-            "self._apply_transforms(inputs,self.q_vectors[torch.arange(self.num_transforms-1,-1,-1)])",
-            "self._apply_transforms(inputs,self.q_vectors.flip(0))",
-            "self._apply_transforms(inputs,torch.flip(self.q_vectors,[0]))",
-            "self._apply_transforms(inputs,torch.flip(self.q_vectors,dims=[0]))",
-            "self._apply_transforms(inputs,torch.flip(self.q_vectors,(0,)))",
-        )
-        if t in forms:
-            oki = True
+    orders = {}
+    for fi, nm in ((fwd, "forward"), (inv, "inverse")):
+        x = fi.params()[0][0]
+        for path in paths_of(fi.node):
+            if path.kind != "return":
+                continue
+            r = path.ret
+            if not (isinstance(r, ast.Call) and attr_chain(r.func) in ("self._apply_transforms", "HouseholderSequence._apply_transforms") and len(r.args) == 2):
+                res.undecide("HouseholderSequence.%s" % nm, "does not return self._apply_transforms(inputs, rows)")
+                continue
+            if norm_text(r.args[0]) != x:
+                res.fail(Finding("ORTH-REV", fi.module, fi.qualname, path.ret_node, "%s must apply the reflections to its inputs" % nm))
+                continue
+            o = _row_order(r.args[1])
+            if o is None:
+                res.undecide("HouseholderSequence.%s" % nm, "cannot decide the order of the rows `%s`" % norm_text(r.args[1])[:70])
+            elif isinstance(o, tuple):
+                res.fail(Finding("ORTH-REV", fi.module, fi.qualname, path.ret_node, "%s: %s" % (nm, o[1])))
+            else:
+                orders.setdefault(nm, set()).add(o)
+    if orders.get("forward") and orders.get("inverse"):
+        fo, io = orders["forward"], orders["inverse"]
+        if len(fo) == 1 and len(io) == 1 and fo != io:
+            res.ok("forward applies the rows %s, inverse %s" % (next(iter(fo)), next(iter(io))))
         else:
-            res.fail(Finding("ORTH-REV", inv.module, inv.qualname, path.ret_node, "inverse must apply exactly the same reflections in reversed order (rows num_transforms-1 .. 0); found `%s`" % norm_text(path.ret)[:90]))
-    if oki:
-        res.ok("inverse applies q_vectors[num_transforms-1 .. 0]")
+            res.fail(Finding("ORTH-REV", inv.module, inv.qualname, inv.node, "inverse must apply exactly the same reflections as forward in the opposite order (forward: %s, inverse: %s)" % (sorted(fo), sorted(io)), construct="order of the reflections in inverse"))
     # the reflection
+    from ..symexp import body_expansion
+
     lp = [n for n in ap.node.body if isinstance(n, ast.For)]
-    if len(lp) != 1:
-        res.undecide("_apply_transforms", "expected one loop")
+    rets = [n for n in ap.node.body if isinstance(n, ast.Return)]
+    if len(lp) != 1 or len(rets) != 1 or not (isinstance(rets[0].value, ast.Tuple) and isinstance(rets[0].value.elts[0], ast.Name)):
+        res.undecide("_apply_transforms", "expected one loop and `return <outputs>, <logabsdet>`")
         return res
     loop = lp[0]
-    it = norm_text(loop.iter).replace(" ", "")
-    tnames = [norm_text(e) for e in loop.target.elts] if isinstance(loop.target, ast.Tuple) else [norm_text(loop.target)]
-    sq_def = [n for n in ap.node.body if isinstance(n, ast.Assign) and norm_text(n.value).replace(" ", "") in ("torch.sum(q_vectors**2,dim=-1)", "(q_vectors**2).sum(dim=-1)", "(q_vectors**2).sum(-1)", "q_vectors.pow(2).sum(-1)", "q_vectors.pow(2).sum(dim=-1)")]
-    if sq_def and it == "zip(q_vectors,%s)" % norm_text(sq_def[0].targets[0]) and len(tnames) == 2:
-        res.ok("each row is paired with its own squared norm")
-        q, n2 = tnames
-        body = " ; ".join(norm_text(s) for s in loop.body).replace(" ", "")
-        if ("temp=outputs@%s" % q) in body and ("temp=torch.ger(temp,2.0/%s*%s)" % (n2, q)) in body.replace("(2.0/%s)" % n2, "2.0/%s" % n2) and "outputs=outputs-temp" in body:
-            res.ok("reflection: outputs - outer(outputs @ q, (2 / |q|^2) q)")
+    carried = rets[0].value.elts[0].id
+    params = [a for a, _ in ap.params()]
+    xin, rows = params[0], params[1]
+    # the carried tensor starts as the inputs
+    pre = body_expansion([st for st in ap.node.body[: ap.node.body.index(loop)]]) or {}
+    if norm_text(pre.get(carried, ast.Name(id=carried, ctx=ast.Load()))) != xin:
+        res.fail(Finding("ORTH-REV", ap.module, ap.qualname, loop, "the running outputs must start as the inputs", construct="initial value of the reflections"))
+    # rows paired with their own squared norm
+    q = paired = None
+    it = loop.iter
+    if isinstance(loop.target, ast.Tuple) and len(loop.target.elts) == 2 and isinstance(it, ast.Call) and norm_text(it.func) == "zip" and len(it.args) == 2:
+        q, paired = norm_text(loop.target.elts[0]), norm_text(loop.target.elts[1])
+        a0, a1 = it.args
+        a1e = pre.get(a1.id, a1) if isinstance(a1, ast.Name) else a1
+        from ..astutil import as_reduction
+
+        red = as_reduction(a1e, ("sum",))
+        if norm_text(a0) == rows and red is not None and red[2] is not None and const_number(red[2]) in (-1, 1) and _is_square_of(red[1], rows):
+            res.ok("each row is paired with its own squared norm")
         else:
-            res.fail(Finding("ORTH-REV", ap.module, ap.qualname, loop, "each step must be the Householder reflection outputs - outer(outputs @ q, (2/|q|^2) * q) with one and the same q and its own squared norm"))
+            res.fail(Finding("ORTH-REV", ap.module, ap.qualname, loop, "rows must be paired with their own squared norms (zip(q_vectors, sum(q_vectors**2, -1)))"))
+            return res
+    elif isinstance(loop.target, ast.Name) and norm_text(it) == rows:
+        q = loop.target.id
     else:
-        res.fail(Finding("ORTH-REV", ap.module, ap.qualname, loop, "rows must be paired with their own squared norms (zip(q_vectors, sum(q_vectors**2, -1)))"))
+        res.undecide("_apply_transforms", "loop is not over the rows (optionally zipped with their squared norms)")
+        return res
+    env = body_expansion(loop.body)
+    if env is None or carried not in env:
+        res.undecide("_apply_transforms", "the loop body does not rebind `%s` on a single path" % carried)
+        return res
+    v = _reflection_verdict(env[carried], carried, q, paired)
+    if v == "ok":
+        res.ok("reflection: %s - outer(<%s, q>, (2 / |q|^2) q), threaded through the loop" % (carried, carried))
+    elif isinstance(v, tuple):
+        res.fail(Finding("ORTH-REV", ap.module, ap.qualname, loop, "each step must be the Householder reflection outputs - outer(outputs @ q, (2/|q|^2) * q): " + v[1]))
+    else:
+        res.undecide("_apply_transforms", "the update `%s` is not of a known reflection form" % norm_text(env[carried])[:90])
     return res
 
 
